@@ -421,6 +421,7 @@ func runC09(cw *caseWriter, tier string, seed uint64) {
 
 func runC20(cw *caseWriter, tier string, seed uint64) {
 	c08gen(cw, tier, &rng{s: seed})
+	c10gen(cw, tier, &rng{s: seed*59 + 3}) // the FSM goroutine's restore path (shared by InstallSnapshot and user Restore) followed by takeSnapshot
 	if tier == "quick" {
 		runScenarios(cw, 12, seed*100000, 60, 12)
 	} else {
